@@ -64,6 +64,9 @@ class DataGen(object):
         rng = self.rng
         if exact8:
             return rng.randint(1, 80000) / 8.0
+        if rng.random() < 0.02:
+            # a harness printed 1e999 or nan: the adapters hand on inf / -inf / nan
+            return rng.choice([float('inf'), float('-inf'), float('nan')])
         return rng.choice([rng.uniform(0.001, 1e6), float(rng.randint(0, 10 ** 6)), rng.randint(1, 8000) / 8.0])
 
 
@@ -172,7 +175,7 @@ def mk(script):
 def dp_event(d):
     return {'k': 'persist', 'run': d['run'],
             'dp': {'in': d['in'], 'it': d['it'],
-                   'ms': [{'c': c, 'u': u, 'v': lib.frac(v)} for (c, u, v) in d['ms']]}}
+                   'ms': [{'c': c, 'u': u, 'v': D.fr(v)} for (c, u, v) in d['ms']]}}
 
 
 def add_point_events(events, timeline, ev, point, fl):
@@ -191,7 +194,7 @@ def add_point_events(events, timeline, ev, point, fl):
 
 
 def flat_of(d):
-    return [(d['run'], d['in'], d['it'], c, u, Fraction(v)) for (c, u, v) in d['ms']]
+    return [(d['run'], d['in'], d['it'], c, u, D.fraction(v)) for (c, u, v) in d['ms']]
 
 
 def execute(ck, sc, idx, server=None, refused_port=None):
@@ -627,6 +630,100 @@ def check_retries(ck, n, only=None):
             ck.oracle_fail('client_error_not_retried', {'script': s}, impl)
 
 
+# ------------------------------------------------------------------ several data files in one session
+def check_multi_file(ck, n, seeds=None):
+    """one session, several experiments with their own data file (executed with `all`), ReBenchDB enabled: every
+    data file has its own back end and its own start time (that of the file's first session block, or of its
+    creation); a request carries the start time of the data file whose data points it covers"""
+    import copy
+    from rebench.configurator import Configurator, load_config
+    import random as _random
+    for idx in range(n):
+        scen_seed = seeds[idx] if seeds else ck.rng.randint(0, 2 ** 31)
+        rng = _random.Random(scen_seed)        # a replay file names the scenario by its seed
+        ck._c17_mf = getattr(ck, '_c17_mf', 0) + 1
+        wd = os.path.join(ck.scratch, 'mf%d' % ck._c17_mf)
+        os.makedirs(wd)
+        n_files = rng.randint(2, 4)
+        v2 = rng.random() < 0.5
+        files = ['x%d.data' % i for i in range(n_files)]
+        stamps = {}
+        # some of the files exist already: they keep the start time of their first session
+        for f in files:
+            if rng.random() < 0.4:
+                stamps[f] = stamp(rng)
+                with open(os.path.join(wd, f), 'w') as fh:
+                    fh.write('#!earlier session\n# Execution Start: %s\n' % stamps[f])
+        cfg = {'default_experiment': 'all', 'default_data_file': 'unused.data',
+               'reporting': {'rebenchdb': {'db_url': 'http://127.0.0.1:9', 'repo_url': D.CFG_REPO_URL,
+                                           'project_name': D.PROJECT, 'record_all': True}},
+               'benchmark_suites': dict(('S%d' % i, {'gauge_adapter': 'RebenchLog', 'command': 'h %(benchmark)s',
+                                                     'benchmarks': ['F%dA' % i, 'F%dB' % i]}) for i in range(n_files)),
+               'executors': {'E': {'path': '.', 'executable': 'exe'}},
+               'experiments': dict(('X%d' % i, {'suites': ['S%d' % i], 'executions': ['E'], 'data_file': files[i]})
+                                   for i in range(n_files))}
+        conf = D.drive.write_config(wd, cfg)
+        fresh = iter([stamp(rng) for _ in range(40)])
+        old_cwd = os.getcwd()
+        os.chdir(wd)
+        crash = None
+        try:
+            with D.World(v2, 'mf', 'unused') as w:
+                D.P.get_current_time = lambda: next(fresh)      # every new file gets a time of its own
+                ui = D.TestDummyUI()
+                ds = D.P.DataStore(ui)
+                cnf = Configurator(load_config(conf), ds, ui, D.options([]))
+                runs = sorted(cnf.get_runs(), key=lambda r: r.benchmark.name)
+                try:
+                    ds.load_data(runs, False)
+                    order = list(runs)
+                    rng.shuffle(order)
+                    for k, run in enumerate(order):
+                        dp = D.DataPoint(run)
+                        dp.add_measurement(D.Measurement(1, 1, float(k + 1), 'ms', run, 'total'))
+                        run.add_data_point(dp, False)
+                    w.begin_point('close', ['ok'] * (2 * n_files))
+                    for run in runs:
+                        run.close_files()
+                    w.end_point()
+                except Exception as e:  # noqa
+                    crash = '%s: %s' % (type(e).__name__, e)
+                attempts = list(w.points[-1]['attempts']) if w.points else []
+        finally:
+            os.chdir(old_cwd)
+        inp = {'multi_file': {'scenario_seed': scen_seed, 'files': files, 'existing_with_start_time': stamps, 'v2': v2}}
+        ck.impl_traces += 1
+        ck.count('session with %d data files and ReBenchDB' % n_files)
+        ck.case(nontrivial_key=('mf', idx, n_files, len(stamps)), sample={'files': n_files, 'requests': len(attempts)})
+        if crash:
+            ck.oracle_fail('transmission_no_traceback', inp, {'raised': crash},
+                           signature={'clause': 'transmission_no_traceback', 'level': 'multi-file'})
+            continue
+        seen = {}
+        for a in attempts:
+            j = json.loads(a['body'])
+            names = sorted(set(e['runId']['benchmark']['name'] for e in j['data']))
+            fidx = sorted(set(int(nm[1]) for nm in names))
+            for fi in fidx:
+                seen.setdefault(files[fi], []).append(j.get('startTime'))
+            file_starts = [D.first_start_time(os.path.join(wd, files[fi])) for fi in fidx]
+            bad = [files[fi] for fi, st in zip(fidx, file_starts) if st != j.get('startTime')]
+            if len(fidx) != 1 or bad:
+                ck.oracle_fail('payload_carries_start_time', inp,
+                               {'request_covers_files': [files[fi] for fi in fidx], 'payload_startTime': j.get('startTime'),
+                                'start_time_recorded_in_those_files': file_starts},
+                               signature={'clause': 'payload_carries_start_time', 'level': 'multi-file'})
+            # an existing file keeps the start time of its first session
+            for fi in fidx:
+                if files[fi] in stamps and j.get('startTime') != stamps[files[fi]]:
+                    ck.oracle_fail('payload_carries_start_time', inp,
+                                   {'file': files[fi], 'first_session_started': stamps[files[fi]], 'payload': j.get('startTime')},
+                                   signature={'clause': 'payload_carries_start_time', 'level': 'multi-file', 'what': 'first block'})
+        if sorted(seen) != sorted(files):
+            ck.disagree('c17.multi-file: one request per data file', inp, {'files_with_requests': sorted(seen)},
+                        {'files': files}, THEOREMS_ENC)
+
+
 # ------------------------------------------------------------------ corpus / entry points
 def corpus_files():
     d = os.path.join(lib.VERIF, 'harness', 'corpus', 'C17')
@@ -652,6 +749,7 @@ def run(ck):
         ck.count('corpus')
         check_batch(ck, [data['input']['scenario']], tag='corpus')
     check_retries(ck, 150 if quick else 1500)
+    check_multi_file(ck, 12 if quick else 120)
     rng = ck.rng
     # exhaustive outcome sequences
     batch = []
@@ -714,6 +812,9 @@ def http_slice(ck, n):
 
 def replay(ck, data):
     inp = data['input']
+    if 'multi_file' in inp:
+        check_multi_file(ck, 1, seeds=[inp['multi_file']['scenario_seed']])
+        return
     sc = inp.get('scenario')
     if sc is None and 'script' in inp:
         check_retries(ck, 0, only=[inp['script']])
